@@ -119,6 +119,9 @@ def showEntry : Entry → String
   | .resumed e h src v er => s!"R {e} {h} {src} {showView v} {if er then 1 else 0}"
   | .timeout e h c => s!"T {e} {h} {if c then 1 else 0}"
   | .idle d => s!"W {d}"
+  | .batch n => s!"B {n}"
+  | .exit e h => s!"O {e} {h}"
+  | .hinv e k o => s!"H {e} {k} {o}"
 
 def parseVItem (t : String) : Option VItem :=
   if t == "E" then some .err else t.toNat?.map .val
@@ -139,6 +142,9 @@ def parseEntry : List String → Option Entry
     pure (.resumed (← e.toNat?) (← h.toNat?) (← src.toNat?) (← parseView v) (← parseBool er))
   | ["T", e, h, c] => do pure (.timeout (← e.toNat?) (← h.toNat?) (← parseBool c))
   | ["W", d] => (parseInt d).map .idle
+  | ["B", n] => n.toNat?.map .batch
+  | ["O", e, h] => do pure (.exit (← e.toNat?) (← h.toNat?))
+  | ["H", e, k, o] => do pure (.hinv (← e.toNat?) (← k.toNat?) (← o.toNat?))
   | _ => none
 
 structure CoreSt where
